@@ -3,7 +3,8 @@
    (API sections, instances leaving their first select in either order, wake-ups, user-function returns with any
    outcome, bookkeeping sections, clock advances, timer callbacks, WaitExited callers), plain and state variant,
    with and without back-off.  No bound on the number of instances. *)
-From Util Require Import Common.Base Common.ListLemmas Routine.Model Routine.Proofs.
+From Util Require Import Common.Base Common.ListLemmas Routine.Model Routine.Proofs Routine.Spec Routine.ProofsMon.
+Close Scope N_scope.
 
 (* never two instances inside the managed function *)
 Theorem c04_at_most_one_in_user : forall variant cmp ncb script es,
@@ -59,3 +60,15 @@ Example c04_example_handover :
   let s := run repaired (init false 1 1 None) (d2_witness ++ [EReturn 0 OCanc; EWake 1 true; EWake 2 true]) in
   cnt in_user (insts s) = 1 /\ in_user (geti s 2) = true /\ over (geti s 0) = true /\ over (geti s 1) = true.
 Proof. vm_compute. repeat split; reflexivity. Qed.
+
+(* Monitors and model, for EVERY event list (no bound on length, instances, callers): whenever the schedule-level step
+   function of Routine/Spec.v accepts the events, the monitors (one function for C04, C05 and C14; clauses 4/1: at most
+   one instance observed inside the managed function, 4/2: a closed waitReturn channel only when every earlier instance
+   is over) running on the observations the model itself produces report no false clause.  Hence the model satisfies
+   the property in exactly the form evaluated on implementation traces, and the monitors raise no alarm on an
+   implementation that behaves like the model.  [cfg_ok]: at least one exit callback and no zero back-off duration
+   (both needed by C14's clauses only, see Props_C14.v). *)
+Theorem c04_model_satisfies_monitors : forall cfg evs, cfg_ok cfg = true ->
+  monitor mon 0 (minit cfg) [] evs (run_obs step_opt (hinit cfg) evs) = [].
+Proof. exact model_satisfies_monitors. Qed.
+Print Assumptions c04_model_satisfies_monitors.
